@@ -109,6 +109,34 @@ func runC18(x *X) {
 		x.State(s1 + "\x00" + s2)
 		x.Nontrivial(fmt.Sprint(how, s1, "\x00", s2))
 	})
+	// padding of every size: a column whose widest line is W cells wide, above/below lines of 0, 1 and W-1 cells
+	maxW := x.Pick(300, 1100)
+	x.Explore("padding-widths", ExploreOpts{ShardDepth: 1, Bound: fmt.Sprintf("every column width W in 1..%d (ASCII, and double-width runes for even W) with cells of width 0, 1 and W-1 and a two-line cell in the same column; header or body position", maxW)}, func(c *Chooser) {
+		w := 1 + c.Choose(maxW)
+		wide := c.Bool()
+		hdr := c.Bool()
+		if wide && w%2 == 1 {
+			return
+		}
+		long := strings.Repeat("x", w)
+		if wide {
+			long = strings.Repeat("ｗ", w/2)
+		}
+		cells := []string{long, "", "y", strings.Repeat("z", w-1), "a\n" + strings.Repeat("b", w/2)}
+		tg := &TGrid{}
+		if hdr {
+			tg.HasHeader = true
+			tg.Header = []TCell{{Text: long}}
+			cells = cells[1:]
+		}
+		for _, s := range cells {
+			tg.Rows = append(tg.Rows, TRow{Cells: []TCell{{Text: s}}})
+		}
+		c.Logf("one column of width %d (wide runes: %v, widest line in the header: %v)", w, wide, hdr)
+		x.Transition(1)
+		x.Nontrivial(fmt.Sprint(w, wide, hdr))
+		compareTextTable(x, "C18", tg, namedDecor("ascii-simple"), []string{"padding_widths", fmt.Sprintf("width:%d", w)})
+	})
 	maxLen := x.Pick(5, 7)
 	ascii := "ascii-simple"
 	x.Explore("strings", ExploreOpts{ShardDepth: 3, Bound: fmt.Sprintf("all strings of <=%d atoms over %d atoms", maxLen, len(c18Atoms))}, func(c *Chooser) {
